@@ -816,10 +816,19 @@ func coreRunTrace(t *testing.T, r *Run, lines []string) {
 
 func TestCore(t *testing.T) { runCore(t, "Core") }
 
+// corePost, when set, runs at the end of a generation run of runCore on the same Run (TestC18 uses
+// it to add the other packages' histories).
+var corePost func(r *Run)
+
 func runCore(t *testing.T, id string) {
 	focus := os.Getenv("CORE_FOCUS")
 	r := NewRun(t, id)
 	defer r.Close()
+	defer func() {
+		if corePost != nil {
+			corePost(r)
+		}
+	}()
 	if lines := ReplayLines(); lines != nil {
 		for _, tr := range SplitTraces(lines) {
 			coreRunTrace(t, r, tr)
